@@ -108,6 +108,14 @@ GOOD_DIRECTION_MIXES = [
 BAD_AFTER = [
     ('later-defined predicate', 'definition: forall X (e(X) <-> d(X)). definition: forall X (d(X) <-> q(X)).'),
     ('defined twice', 'definition: forall X (d(X) <-> q(X)). definition: forall X (d(X) <-> p(X)).'),
+    # predicates are symbol AND arity: a known symbol at another arity is still undefined in a body (seed C13-16: the body check
+    # compared names only, so a self-recursive d/2 after d/1 - an inconsistent axiom - was accepted)
+    ('recursive definition at another arity of a defined symbol',
+     'definition: forall X (d(X) <-> q(X)). definition: forall X Y (d(X, Y) <-> not d(X, Y)).'),
+    ('undefined body predicate, homonym of an input at another arity', 'definition: forall X (d(X) <-> q(X, X)).'),
+    ('undefined body predicate, homonym of an output at another arity', 'definition: forall X (d(X) <-> q(X) and not p).'),
+    ('undefined body predicate, homonym of an earlier definition at another arity',
+     'definition: forall X (d(X) <-> q(X)). definition: forall X (e(X) <-> d(X, X) or d).'),
 ]
 
 
